@@ -110,3 +110,33 @@ contract('parso.python.diff._skip_dedent_error_leaves', params={'leaf': 'ref:Lea
                                    'lo(leaf) <= lo(old(leaf)))', 'implies(old(leaf) is None, leaf is None)',
                                    'implies(old(leaf) is not None and not ' + DED % ('old(leaf)', 'old(leaf)') + ', leaf is old(leaf))'],
                         decreases='ite(leaf is None, 0, lo(leaf) - lo(root(leaf)) + 1)')}, **NAVT)
+
+
+# ---- C11: PythonBaseNode.get_name_of_position: the first name leaf (in source order) below self whose range contains the
+# position, None when there is none.  Stated over the leaf numbering: leaf_at(root, k) for lo(self) <= k <= hi(self).
+def _name_at(x):
+    return "(%s.type == 'name' and spos(%s) <= position and position <= epos(%s))" % (x, x, x)
+
+
+def _none_before(upto):
+    return ('forall(lambda k: implies(lo(self) <= k and k < %s, not %s), trigger=lambda k: leaf_at(root(self), k))'
+            % (upto, _name_at('leaf_at(root(self), k)')))
+
+
+NP = dict(theories=['tree', 'treepos', 'leafnum'], props=['C11'])
+contract('parso.python.tree.PythonMixin.get_name_of_position',
+         params={'self': 'ref:NodeOrLeaf', 'position': 'pos'}, returns='ref:Leaf',
+         requires=['self is not None', 'not is_leaf(self)',
+                   # PYTREE: every interior node of a tree built by the Python parser carries PythonMixin, i.e. is a
+                   # PythonBaseNode, PythonNode or PythonErrorNode (T obligation cls:python-tree-classes over node_map /
+                   # default_node / PythonErrorNode)
+                   'forall(lambda x: implies(x is not None and not is_leaf(x), '
+                   'isinstance(x, (PythonBaseNode, PythonNode, PythonErrorNode))), '
+                   'kinds=dict(x="ref:NodeOrLeaf"))'],
+         ensures=['implies(result is not None, is_leaf(result) and root(result) is root(self) and lo(self) <= lo(result) and '
+                  'lo(result) <= hi(self) and ' + _name_at('result') + ')',
+                  # it is the first one: no name leaf before it contains the position; none at all when the result is None
+                  'implies(result is not None, %s)' % _none_before('lo(result)'),
+                  'implies(result is None, %s)' % _none_before('hi(self) + 1')],
+         loops={0: dict(invariant=[_none_before('ite(_i == nch(self), hi(self) + 1, lo(child(self, _i)))')], len_stable=True)},
+         decreases='height(self)', **NP)
